@@ -136,11 +136,43 @@ fn enet_cfg(c: &EnetCase, tol: f64, max_iter: u32) -> EnetCfg {
 }
 
 fn run_enet(c: &EnetCase, n: usize, p: usize, t: usize, tol: f64, max_iter: u32) -> Result<EnetOut, String> {
+    run_enet_layout(c, n, p, t, tol, max_iter, c.x_layout, c.y_layout)
+}
+
+#[allow(clippy::too_many_arguments)]
+fn run_enet_layout(c: &EnetCase, n: usize, p: usize, t: usize, tol: f64, max_iter: u32, xl: u8, yl: u8) -> Result<EnetOut, String> {
     let cfg = enet_cfg(c, tol, max_iter);
     if c.f32 {
-        fit_enet::<f32>(&c.x, &c.y, n, p, t, &cfg)
+        fit_enet::<f32>(&c.x, &c.y, n, p, t, &cfg, xl, yl)
     } else {
-        fit_enet::<f64>(&c.x, &c.y, n, p, t, &cfg)
+        fit_enet::<f64>(&c.x, &c.y, n, p, t, &cfg, xl, yl)
+    }
+}
+
+fn layout_classes(xl: u8, yl: u8, targets_2d: bool, obs: &mut Obs) {
+    obs.class(match xl {
+        1 => "x_layout_column_major",
+        2 => "x_layout_every_second_row_view",
+        3 => "x_layout_rows_reversed",
+        4 => "x_layout_columns_reversed",
+        5 => "x_layout_transposed_feature_major_view",
+        _ => "x_layout_row_major",
+    });
+    if targets_2d {
+        obs.class(match yl {
+            1 => "y_layout_column_major",
+            2 => "y_layout_every_second_row_view",
+            3 => "y_layout_rows_reversed",
+            4 => "y_layout_columns_reversed",
+            5 => "y_layout_transposed_view",
+            _ => "y_layout_row_major",
+        });
+    } else {
+        obs.class(match yl {
+            2 => "y_layout_every_second_element_view",
+            3 | 4 => "y_layout_reversed",
+            _ => "y_layout_standard",
+        });
     }
 }
 
@@ -216,6 +248,7 @@ fn check_enet(c: &EnetCase, obs: &mut Obs) {
     obs.class_if(c.f32, "f32");
     obs.class_if(c.intercept, "intercept_on");
     obs.class_if(!c.intercept, "intercept_off");
+    layout_classes(c.x_layout, c.y_layout, c.multi, obs);
     {
         let preset = c.ctor == 3 && (c.l1_ratio == 0.0 || c.l1_ratio == 1.0);
         obs.class_if(c.ctor == 1, "ctor_params_new");
@@ -563,6 +596,57 @@ fn check_enet(c: &EnetCase, obs: &mut Obs) {
         }
     }
 
+    // ---- (4b) the row-major twin: the same logical data in standard layout must give the same model.
+    // Two points that are each within `a_i` of the minimum of P(., b) satisfy
+    // ||X (W1 - W2)||_F <= sqrt(2 a_1) + sqrt(2 a_2) (P - P* >= 1/2 ||X (W - W*)||^2).
+    if c.x_layout != 0 || c.y_layout != 0 {
+        match obs.call("elasticnet.fit", || run_enet_layout(c, n, p, t, c.tol, budget, 0, 0)) {
+            Some(Ok(tw)) if shape_ok(&tw.w, p, t) && tw.b.len() == t && out_finite(&tw) => {
+                let tw_reported = tw.n_steps < budget;
+                if tw_reported || !reported {
+                    obs.class("row_major_twin_compared");
+                    let a2 = if tw_reported { tw.gap.max(0.0) } else { allowance };
+                    let sigma = slack_rel * s0;
+                    let mut db: f64 = 0.0;
+                    let mut b_ok = true;
+                    for cc in 0..t {
+                        let d = (tw.b[cc] - b[cc]).abs();
+                        b_ok &= d <= 1e3 * eps * (b[cc].abs() + rms_y[cc]) + 1e-300;
+                        db += d * d;
+                    }
+                    obs.ensure(b_ok, "enet:layout-twin-differs", || {
+                        format!(
+                            "records layout {} / targets layout {}: intercept {:?}, but {:?} for the same data in row-major layout",
+                            c.x_layout, c.y_layout, b, tw.b
+                        )
+                    });
+                    let mut d2 = 0.0;
+                    for i in 0..n {
+                        for cc in 0..t {
+                            let mut v = 0.0;
+                            for j in 0..p {
+                                v += c.x[i][j] * (w[j][cc] - tw.w[j][cc]);
+                            }
+                            d2 += v * v;
+                        }
+                    }
+                    let allowed = (2.0 * (allowance + sigma)).sqrt() + (2.0 * (a2 + sigma)).sqrt() + (nf * db).sqrt();
+                    obs.ensure(d2.sqrt() <= allowed, "enet:layout-twin-differs", || {
+                        format!(
+                            "records layout {} / targets layout {}: coefficients {:?} (gap {}), but {:?} (gap {}) for the same data in row-major layout; ||X dW|| = {} > {}",
+                            c.x_layout, c.y_layout, w, out.gap, tw.w, tw.gap, d2.sqrt(), allowed
+                        )
+                    });
+                } else {
+                    obs.class("row_major_twin_not_converged");
+                }
+            }
+            Some(Ok(_)) => obs.fail("enet:layout-twin-differs", "the row-major twin returned a non-finite or mis-shaped model".to_string()),
+            Some(Err(e)) => obs.fail("enet:layout-twin-differs", format!("the row-major twin failed to fit: {e}")),
+            None => {}
+        }
+    }
+
     // ---- (5) rows under the l1 threshold are exactly zero (and zero rows are not above it)
     if l1_part && !c.f32 && reported {
         // the iterate before the last sweep: tolerance 0 disables the stopping rule, so a fit with
@@ -628,6 +712,11 @@ fn check_ols(c: &OlsCase, obs: &mut Obs) {
     obs.class_if(!c.f32, "f64");
     obs.class_if(c.intercept, "intercept_on");
     obs.class_if(!c.intercept, "intercept_off");
+    layout_classes(c.x_layout, c.y_layout, false, obs);
+    obs.class_if(
+        !c.intercept && matches!(c.x_layout, 1 | 3 | 4 | 5) && p >= 2,
+        "no_intercept_contiguous_non_standard_records",
+    );
     obs.class_if(c.ctor == 1, "ctor_default");
     obs.class_if(c.ctor != 1, "ctor_new");
     obs.class_if(c.leave_defaults && c.intercept, "intercept_left_at_documented_default");
@@ -660,9 +749,9 @@ fn check_ols(c: &OlsCase, obs: &mut Obs) {
 
     let fitted = obs.call("linear_regression.fit", || {
         if c.f32 {
-            fit_ols::<f32>(&c.x, &c.y, n, p, c.intercept, c.ctor, c.leave_defaults)
+            fit_ols::<f32>(&c.x, &c.y, n, p, c.intercept, c.ctor, c.leave_defaults, c.x_layout, c.y_layout)
         } else {
-            fit_ols::<f64>(&c.x, &c.y, n, p, c.intercept, c.ctor, c.leave_defaults)
+            fit_ols::<f64>(&c.x, &c.y, n, p, c.intercept, c.ctor, c.leave_defaults, c.x_layout, c.y_layout)
         }
     });
     let out = match fitted {
@@ -763,6 +852,34 @@ fn check_ols(c: &OlsCase, obs: &mut Obs) {
         }
     }
 
+    // the row-major twin: same logical data in standard layout, same parameters within the
+    // tolerance of the reference comparison
+    if c.x_layout != 0 || c.y_layout != 0 {
+        let twin = obs.call("linear_regression.fit", || {
+            if c.f32 {
+                fit_ols::<f32>(&c.x, &c.y, n, p, c.intercept, c.ctor, c.leave_defaults, 0, 0)
+            } else {
+                fit_ols::<f64>(&c.x, &c.y, n, p, c.intercept, c.ctor, c.leave_defaults, 0, 0)
+            }
+        });
+        match twin {
+            Some(Ok(tw)) if tw.w.len() == p && tw.w.iter().all(|v| v.is_finite()) && tw.b.is_finite() => {
+                obs.class("row_major_twin_compared");
+                let tol = AGREE_EPS * eps * cond * m_scale;
+                let worst = (0..p).map(|j| (w[j] - tw.w[j]).abs() * xi.norms[j]).fold((b - tw.b).abs() * nf.sqrt(), f64::max);
+                obs.ensure(worst <= tol, "ols:layout-twin-differs", || {
+                    format!(
+                        "records layout {} / targets layout {}: params {:?}, intercept {b}, but params {:?}, intercept {} for the same data in row-major layout (scaled difference {worst}, allowed {tol})",
+                        c.x_layout, c.y_layout, w, tw.w, tw.b
+                    )
+                });
+            }
+            Some(Ok(_)) => obs.fail("ols:layout-twin-differs", "the row-major twin returned a non-finite or mis-shaped model".to_string()),
+            Some(Err(e)) => obs.fail("ols:layout-twin-differs", format!("the row-major twin failed to fit: {e}")),
+            None => {}
+        }
+    }
+
     // agreement with an independent solve: centred (if intercept), unit-length columns, normal
     // equations by Gaussian elimination with partial pivoting
     let means: Vec<f64> = if c.intercept { xi.means.clone() } else { vec![0.0; p] };
@@ -805,6 +922,7 @@ pub fn property() -> Property {
                near-collinear pair (elastic net; the pair only with a positive ridge part) or planted feature exactly uncorrelated with every target (column e_a - e_b with y_a = y_b); y = X w* + b* + sigma noise with row-sparse w*, 1..=3 target columns for the multi-task estimator; \
                construction path: LinearRegression::new() | ::default(); ElasticNet::params() | ElasticNetParams::new() | ::default() | preset lasso()/ridge() (same for the multi-task type), \
                each with every option either set explicitly or, when its value equals the documented default (intercept on, penalty 1.0, l1_ratio 0.5, tolerance 1e-4), left untouched; \
+               memory layout of records and of targets, independently: row-major (weight 4), column-major, every-second-row view of a larger table, rows reversed (inverted axis), columns reversed, transposed view of a feature-major table (weight 1 each; 1-D targets: standard / every second element / reversed); \
                penalty in {0,1e-3,0.1,1,10}, l1_ratio in {0,0.3,0.5,1}, intercept on/off, tolerance in {1e-4,1e-8,1e-12} (f32: {1e-3,1e-4}), max_iterations 10000 (quick) / 100000 (thorough). \
                Non-trivial = judged (converged) case with un-centred X and intercept, or >= 1 exactly-zero and >= 1 non-zero coefficient row, or multi-task with >= 2 target columns; \
                for OLS: un-centred X with intercept. distinct = distinct canonical JSON of the case",
@@ -819,6 +937,7 @@ pub fn property() -> Property {
             format!("OLS: |x_j^T r| <= {ORTH_EPS}*eps*||x_j||*M and |1^T r| <= {ORTH_EPS}*eps*sqrt(n)*M with M = ||y|| + sum_k ||x_k|| |w_k| + sqrt(n)|b|; SSE slack 1e4*eps*M^2; agreement with the reference solve within {AGREE_EPS}*eps*cond*M where cond is the condition number of the unit-column Gram matrix of [X 1]; designs with cond > {COND_MAX:e} are not judged"),
             "non-finite output is always a failure; NaN coefficients of the multi-task estimator with n*penalty*l1_ratio == 0 carry the known-finding signature of the 0/0 in block_soft_thresholding, every other non-finite output the plain signature".into(),
             "documented defaults used by the oracle when an option is left untouched: LinearRegression fits an intercept ('By default, an intercept will be fitted'); ElasticNetParams table: penalty 1.0, l1_ratio 0.5, with_intercept true, tolerance 1e-4; lasso() = l1_ratio 1, ridge() = l1_ratio 0; max_iterations is always set explicitly".into(),
+            format!("layouts: every obligation is judged on the model fitted through the generated layout; in addition the model must equal the one fitted on the same logical data in row-major layout: OLS within {AGREE_EPS}*eps*cond*M (scaled by column norms), elastic net within ||X(W1-W2)||_F <= sqrt(2(a1+s)) + sqrt(2(a2+s)) + sqrt(n)*|b1-b2| (a_i = reported gap or 0 under the two-budget rule, s = float slack; strong convexity of the objective in XW) and |b1-b2| <= 1e3*eps*(|b|+rms(y))"),
             "predict must equal X w + b within 64*eps*(|b| + sum_j |x_ij w_j|)".into(),
             "f32 cases are mild (scales 0.1..10, offsets <= 1 scale, no collinear pair); for f32 the exact-zero rule, the two-budget ridge rule and the budget rule are not applied".into(),
             "trusted base: ndarray, the harness' own Gaussian elimination / Jacobi eigen-solver / coordinate descent (used only to propose candidate points, whose objective is evaluated from the definition)".into(),
@@ -826,12 +945,12 @@ pub fn property() -> Property {
         subs: vec![
             prop_sub("elasticnet", 6000, 48000, |t: Tier| enet_strategy(Flavor::Enet, t.pick(MAX_ITER_QUICK, MAX_ITER_THOROUGH)), check_enet)
                 .chunks(16)
-                .require(&["converged_reported_by_solver", "converged_two_budget_stationary", "solution_zero_and_nonzero_rows", "row_strictly_under_threshold", "uncentred_x_with_intercept", "x_all_columns_centred", "ctor_params_default", "ctor_params_new", "ctor_preset_lasso_or_ridge", "intercept_left_at_documented_default"]),
+                .require(&["converged_reported_by_solver", "converged_two_budget_stationary", "solution_zero_and_nonzero_rows", "row_strictly_under_threshold", "uncentred_x_with_intercept", "x_all_columns_centred", "ctor_params_default", "ctor_params_new", "ctor_preset_lasso_or_ridge", "intercept_left_at_documented_default", "y_layout_every_second_element_view", "y_layout_reversed", "x_layout_column_major", "x_layout_every_second_row_view", "x_layout_rows_reversed", "x_layout_columns_reversed", "x_layout_transposed_feature_major_view", "x_layout_row_major", "row_major_twin_compared"]),
             prop_sub("multitask", 4500, 33000, |t: Tier| enet_strategy(Flavor::Multi, t.pick(MAX_ITER_QUICK, MAX_ITER_THOROUGH)), check_enet)
                 .chunks(16)
-                .require(&["converged_reported_by_solver", "converged_two_budget_stationary", "solution_zero_and_nonzero_rows", "row_strictly_under_threshold", "targets_2", "targets_3", "x_all_columns_centred", "ctor_params_default", "ctor_params_new", "ctor_preset_lasso_or_ridge", "intercept_left_at_documented_default"]),
-            prop_sub("ols", 6000, 60000, |_t: Tier| ols_strategy(), check_ols).chunks(8).require(&["uncentred_x_with_intercept", "f32", "f64", "ctor_default_intercept_untouched", "ctor_new"]),
-            prop_sub("elasticnet_f32", 1500, 9000, |_t: Tier| enet_strategy(Flavor::F32, F32_ITER), check_enet).chunks(4).require(&["converged_reported_by_solver"]),
+                .require(&["converged_reported_by_solver", "converged_two_budget_stationary", "solution_zero_and_nonzero_rows", "row_strictly_under_threshold", "targets_2", "targets_3", "x_all_columns_centred", "ctor_params_default", "ctor_params_new", "ctor_preset_lasso_or_ridge", "intercept_left_at_documented_default", "y_layout_column_major", "y_layout_every_second_row_view", "y_layout_rows_reversed", "y_layout_columns_reversed", "y_layout_transposed_view", "x_layout_column_major", "x_layout_every_second_row_view", "x_layout_rows_reversed", "x_layout_columns_reversed", "x_layout_transposed_feature_major_view", "x_layout_row_major", "row_major_twin_compared"]),
+            prop_sub("ols", 6000, 60000, |_t: Tier| ols_strategy(), check_ols).chunks(8).require(&["uncentred_x_with_intercept", "f32", "f64", "ctor_default_intercept_untouched", "ctor_new", "no_intercept_contiguous_non_standard_records", "y_layout_every_second_element_view", "y_layout_reversed", "x_layout_column_major", "x_layout_every_second_row_view", "x_layout_rows_reversed", "x_layout_columns_reversed", "x_layout_transposed_feature_major_view", "x_layout_row_major", "row_major_twin_compared"]),
+            prop_sub("elasticnet_f32", 1500, 9000, |_t: Tier| enet_strategy(Flavor::F32, F32_ITER), check_enet).chunks(4).require(&["converged_reported_by_solver", "x_layout_column_major", "x_layout_every_second_row_view", "x_layout_rows_reversed", "x_layout_columns_reversed", "x_layout_transposed_feature_major_view", "x_layout_row_major", "row_major_twin_compared"]),
         ],
     }
 }
